@@ -251,6 +251,7 @@ func extractIter(repo string) {
 	F.Facts["iter.checkBounds.cmp"] = b.compareOps("BoundedIterator.checkBounds")
 	F.Facts["iter.bounded.Seek.cmp"] = b.compareOps("BoundedIterator.Seek")
 	F.Facts["iter.bounded.SeekToLast.cmp"] = b.compareOps("BoundedIterator.SeekToLast")
+	F.Facts["iter.bounded.SeekToLast.order"] = b.callOrder("BoundedIterator.SeekToLast", "Iterator.Seek", "Iterator.SeekToFirst", "Iterator.Next", "Iterator.SeekToLast", "checkBounds")
 	F.Facts["iter.bounded.SeekToFirst.order"] = b.callOrder("BoundedIterator.SeekToFirst", "Iterator.Seek", "Iterator.SeekToFirst", "checkBounds")
 	h := P(repo, "pkg/common/iterator/composite")
 	F.Facts["iter.findNextUniqueKey.cmp"] = h.compareOps("HierarchicalIterator.findNextUniqueKey")
